@@ -3,10 +3,13 @@
     for the shape the current source has (read from the source on every run); the shape the
     code had before the repair is refuted; (2) in the engine model a request for a query that
     is being computed is answered with the cyclic error at once, marks exactly the computing
-    queries between the two, and changes nothing.  That every cyclic program then terminates
-    with defaults is validated by the correspondence of the model (cycles included) with the
-    real engine, not proved: the model's own termination is by fuel. *)
+    queries between the two, and changes nothing; (3) on a fresh engine every cyclic program of
+    Normal queries terminates within an explicit fuel bound with exactly the values of an
+    independent from-scratch-with-defaults specification.  Incremental behaviour of cyclic
+    programs (later requests) is validated against the real engine, not proved - and known to
+    deviate (recorded finding). *)
 From QV Require Import Common.Prelude Conc.CycleSearch Generated.CycleSearchShape Engine.Model Engine.CycleLemmas.
+From QV Require Import Engine.CoreSpec Engine.MdlSpec Engine.MdlCyc.
 Open Scope N_scope.
 
 (** the search as the current source has it *)
@@ -51,7 +54,44 @@ Theorem C06_request_on_stack_is_cyclic :
       fr_scc fr' = (fr_scc fr || nmem b (upto stk n))%bool.
 Proof. exact request_on_stack_is_cyclic. Qed.
 
+(** (3) Whole cyclic programs on a FRESH engine terminate with the cycle defaults.  [cyc_spec] is an
+    independent relational specification of "from-scratch evaluation with cycle defaults"
+    (demand-driven, explicit evaluation stack; a read of a query on the stack closes a cycle and
+    marks every query from it up to the reader; a marked query is abandoned at its next read and
+    takes [scc_default]; an unmarked reader sees that default as an ordinary value; completed
+    queries are memoised) - the same definition as the harness's oracle [oracle_cyclic], and
+    deterministic.  For every program of Normal queries over inputs with ARBITRARY reads (self
+    loops, several strongly connected components, conditional cycle edges: no rank hypothesis),
+    the first query after the inputs were set answers exactly the [cyc_spec] value, executes
+    every query at most once, never panics or gets stuck, and the explicit fuel bound
+    [cyc_fuel p = length p * (max_depth p + 2) + 1] suffices (termination of whole programs).
+    A later query on an engine that has computed before is NOT covered (recorded finding
+    c06_incremental_scc_membership); firewalls / projections on cycles are not covered either. *)
+Theorem C06_cyc_spec_deterministic :
+  forall p inp root v1 v2, cyc_spec p inp root v1 -> cyc_spec p inp root v2 -> v1 = v2.
+Proof. exact MdlCyc.cyc_spec_det. Qed.
+Theorem C06_fresh_cyclic_program_takes_defaults :
+  forall p sets root rest r,
+    wf_cyc p -> inputs_cover p (inputs_after [OSession sets false]) -> alookup p root <> None ->
+    (cyc_fuel p <= fuel0)%nat ->
+    nth_error (run_history p init_state (OSession sets false :: OQuery root :: rest)) 1 = Some r ->
+    exists v, cyc_spec p (inputs_after [OSession sets false]) root v /\ r_out r = RValue v /\ NoDup (r_execs r).
+Proof. exact MdlCyc.model_cyclic_fresh. Qed.
+Theorem C06_fresh_cyclic_program_any_task_order :
+  forall (tord bord pord : oracle) p sets root rest r,
+    wf_cyc p -> inputs_cover p (inputs_after [OSession sets false]) -> alookup p root <> None ->
+    (cyc_fuel p <= fuel0)%nat ->
+    nth_error (run_history_op tord bord pord p init_state (OSession sets false :: OQuery root :: rest)) 1 = Some r ->
+    exists v, cyc_spec p (inputs_after [OSession sets false]) root v /\ r_out r = RValue v /\ NoDup (r_execs r).
+Proof. exact MdlCyc.model_cyclic_fresh_op. Qed.
+Check cex_prog_wf.   (* a conditional cycle A = B + 1, B = if I0 then A else 5, a self loop, readers outside *)
+Check cex_run.
+Check cex_spec.      (* the spec values, obtained by applying the theorem: its premises are satisfiable *)
+
 Print Assumptions C06_search_terminates.
+Print Assumptions C06_cyc_spec_deterministic.
+Print Assumptions C06_fresh_cyclic_program_takes_defaults.
+Print Assumptions C06_fresh_cyclic_program_any_task_order.
 Print Assumptions C06_search_plain_refuted.
 Print Assumptions C06_search_plain_terminates_on_dags.
 Print Assumptions C06_request_on_stack_is_cyclic.
